@@ -18,6 +18,7 @@ import (
 	"os"
 	"path/filepath"
 	"sort"
+	"strings"
 	"sync/atomic"
 	"testing"
 	"time"
@@ -546,6 +547,80 @@ func TestVerifC13(t *testing.T) {
 		os.RemoveAll(dir)
 	}
 	_ = math.MaxInt64
+	granuleBoundary(s, base)
 	os.RemoveAll(base)
 	s.Done()
+}
+
+// granuleBoundary: a trace above the block budget is stored as several blocks; with wide tag rows a primary block
+// (granule) of the part's metadata holds only about ten blocks, so for some number of small traces sorting before it
+// the granule boundary falls between the big trace's blocks. A lookup by trace id returns every acknowledged span
+// whatever the position of that boundary (all positions 0..17 are tried).
+func granuleBoundary(s *verifh.Sink, base string) {
+	wide := func() []*tagValue {
+		row := make([]*tagValue, 0, 100)
+		for i := 0; i < 100; i++ {
+			row = append(row, &tagValue{tag: fmt.Sprintf("tag-%03d-%s", i, strings.Repeat("x", 110)), valueType: pbv1.ValueTypeStr, value: []byte("v")})
+		}
+		return row
+	}
+	for before := 0; before < 18; before++ {
+		dir := filepath.Join(base, fmt.Sprintf("g%05d", c13dirSeq.Add(1)))
+		os.RemoveAll(dir)
+		os.MkdirAll(dir, 0o755)
+		tst, err := newTSTable(fs.NewLocalFileSystem(), dir, common.Position{Database: fmt.Sprintf("verif-c13-granule-%d", before)}, logger.GetLogger("verif"),
+			timestamp.NewInclusiveTimeRange(time.Unix(-1, 0), time.Unix(1000, 0)),
+			option{flushTimeout: 0, mergePolicy: newMergePolicy(100000, 1, run.Bytes(0)), protector: protector.Nop{}, decideTimeout: 5 * time.Second,
+				decideTimeoutCircuitBreak: 1000, mergeGraceDefault: 10 * time.Second, nativePipelineEnabled: true}, nil)
+		if err != nil {
+			s.Violation("c13:open", map[string]any{"err": err.Error()})
+			continue
+		}
+		ts := &traces{}
+		want := map[string][]string{}
+		add := func(tid, sp string, body []byte, at int64) {
+			ts.traceIDs = append(ts.traceIDs, tid)
+			ts.timestamps = append(ts.timestamps, at*int64(time.Second))
+			ts.tags = append(ts.tags, wide())
+			ts.spans = append(ts.spans, body)
+			ts.spanIDs = append(ts.spanIDs, sp)
+			want[tid] = append(want[tid], sp)
+		}
+		for i := 0; i < before; i++ {
+			id := fmt.Sprintf("a-small-%04d", i)
+			add(id, id+"/s0", []byte("payload"), 10)
+		}
+		const big = "m-big-trace"
+		add(big, big+"/s0", make([]byte, maxUncompressedSpanSize), 20)
+		add(big, big+"/s1", []byte("tail-1"), 21)
+		add(big, big+"/s2", []byte("tail-2"), 22)
+		for i := 0; i < 3; i++ {
+			id := fmt.Sprintf("z-small-%04d", i)
+			add(id, id+"/s0", []byte("payload"), 30)
+		}
+		tst.mustAddTraces(ts, nil)
+		flushed := false
+		for i := 0; i < 400 && !flushed; i++ {
+			ids, mem := fileParts(tst)
+			if flushed = mem == 0 && len(ids) > 0; !flushed {
+				time.Sleep(25 * time.Millisecond)
+			}
+		}
+		s.Case(fmt.Sprint("granule/", before), true)
+		s.Count("c13.granule_boundary_positions", 1)
+		if !flushed {
+			s.Inconclusive(fmt.Sprintf("granule case %d: the batch was not flushed within the bound", before))
+		} else {
+			for tid, w := range want {
+				got, _, err := scanAll(tst, []string{tid})
+				sort.Strings(w)
+				if err != nil || fmt.Sprint(got[tid]) != fmt.Sprint(w) {
+					s.Violation("c13:lookup-by-trace-id:spans-missing", map[string]any{"small_traces_before_the_big_one": before, "trace": tid, "spans_expected": w, "spans_found": got[tid], "err": fmt.Sprint(err)})
+					break
+				}
+			}
+		}
+		tst.Close()
+		os.RemoveAll(dir)
+	}
 }
